@@ -19,6 +19,8 @@ pub open spec fn c07(b: bool) -> bool { b }
 pub open spec fn c09(b: bool) -> bool { b }
 pub open spec fn c10(b: bool) -> bool { b }
 pub open spec fn c16(b: bool) -> bool { b }
+/// auxiliary clause: supports a proof, is no property's own statement
+pub open spec fn aux(b: bool) -> bool { b }
 
 /// `it.snapshot@.remaining()` without bringing vstd's `IteratorSpec` into the scope of the real modules (its spec
 /// methods `peek` / `remaining` would otherwise capture `.peek()` calls of the real code during method resolution)
